@@ -98,6 +98,24 @@ def stepC03 : List String → String
               | .panic => "panic")
           | none => "bad-op")
       | _, _ => "bad-op"
+  | ["blk", aux, pow, ts, maxTx, flags] => match nat? maxTx with
+      | some mx =>
+        let txs := if flags = "-" then [] else flags.toList.map (· == '1')
+        (match ElaVerif.CoinbaseTotal.blockSanityHead false ⟨aux == "1", pow == "1", ts == "1", mx, true, true, txs⟩ with
+          | .val none => "later"
+          | .val (some e) => "err " ++ (match e with
+              | .auxpow => "auxpow" | .pow => "pow" | .time => "time" | .noTx => "notx" | .tooMany => "toomany"
+              | .headerSize => "headersize" | .blockSize => "blocksize" | .firstNotCoinbase => "nocoinbase"
+              | .secondCoinbase => "second-coinbase")
+          | .panic => "panic")
+      | none => "bad-op"
+  | "rdc" :: addrCount :: np :: rest => match nat? addrCount, nat? np with
+      | some ac, some np => (match pairs hexBytes? (fun s => some (s == "1")) np rest with
+          | some (progs, _) => (match ElaVerif.CoinbaseTotal.returnDepositCheck false ac progs true with
+              | .val none => "ok" | .val (some .sameAddr) => "err sameaddr" | .val (some .signer) => "err signer"
+              | .val (some .overspend) => "err overspend" | .panic => "panic")
+          | none => "bad-op")
+      | _, _ => "bad-op"
   | _ => "bad-op"
 
 def main : IO Unit := runPure stepC03
